@@ -439,6 +439,7 @@ def build(index, contracts, specs, rec, fid, keep_ends=False):
             src = ast.unparse(clause)
             ret_ann = ast.unparse(fi.node.returns) if fi.node.returns is not None else ''
             listing = ('seq_eq(' in src) or (name == 'post' and con.functional is not None and ret_ann.startswith('list['))
+            listing = listing or name in getattr(con, 'spelling', ())
             ob = ctx.oblige(p, f'post:{name}', f'postcondition {name}', g, clause.lineno, tactic=con.tactics.get(name),
                             meta={'clause': name, 'listing': listing})
     if con.raises_when is not None and con.raises:
